@@ -216,6 +216,11 @@ def _instant_now(ctx, a, c):
     return ctx.now
 
 
+@model("Instant::elapsed", doc="std::time: now - earlier")
+def _instant_elapsed(ctx, a, c):
+    return ctx.now - deref(ctx, a[0])
+
+
 @model("Instant::checked_sub", doc="std::time: now - duration, None when it would precede the clock's origin")
 def _instant_checked_sub(ctx, a, c):
     t, d = deref(ctx, a[0]), deref(ctx, a[1])
@@ -227,6 +232,18 @@ def _instant_checked_sub(ctx, a, c):
 @model("<Instant as PartialOrd>::lt", doc="std::time")
 def _instant_lt(ctx, a, c):
     return deref(ctx, a[0]) < deref(ctx, a[1])
+
+
+def _time_cmp(op):
+    def f(ctx, a, c):
+        x, y = deref(ctx, a[0]), deref(ctx, a[1])
+        return {"lt": x < y, "le": x <= y, "gt": x > y, "ge": x >= y}[op]
+    return f
+
+
+for _op in ("lt", "le", "gt", "ge"):
+    model(f"<Duration as PartialOrd>::{_op}", *( [f"<Instant as PartialOrd>::{_op}"] if _op != "lt" else []),
+          doc="std::time: time quantities are integers (nanoseconds); comparison is integer comparison")(_time_cmp(_op))
 
 
 @model("Duration::as_secs_f64", doc="std::time: seconds as a real number")
